@@ -276,6 +276,11 @@ class DictList(list):
         other : iterable
             other must contain only unique id's present in the list
         """
+        other = list(other)
+        # make sure that every removal will succeed before removing anything
+        positions = [self.index(item) for item in other]
+        if len(set(positions)) != len(positions):
+            raise ValueError("an element is listed more than once")
         for item in other:
             self.remove(item)
         return self
